@@ -363,6 +363,12 @@ class Harness:
                     S.probe("submission-from-private-asyncio-loop")
                     asyncio.run(self._private_loop(pid, step[1]))
                     self.ev("step", pid)
+                elif op == "private-trio":
+                    # a thread payload that drives a trio run of its own and talks to the runtime from inside it
+                    self.ev("private-trio", pid)
+                    S.probe("submission-from-private-trio-run")
+                    trio.run(self._private_trio, pid, step[1])
+                    self.ev("step", pid)
                 else:
                     raise ValueError("unknown step %r" % (step,))
         except Done as d:
@@ -372,6 +378,13 @@ class Harness:
                 self.ev("cleanup-step", pid)
             self.ev("finished", pid)
         return None
+
+    async def _private_trio(self, pid, substeps):
+        for st in substeps:
+            if st[0] == "sleep":
+                await trio.sleep(st[1])
+            elif not self.sync_step(pid, st):
+                raise ValueError("unknown private-trio step %r" % (st,))
 
     async def _private_loop(self, pid, substeps):
         for st in substeps:
@@ -408,6 +421,27 @@ class Harness:
                     self.ev("blocking", pid)
                     while True:
                         await sleep(3600.0)
+                elif op == "park":
+                    # "run until cancelled" idiom: wait on an awaitable nobody else references
+                    self.ev("blocking", pid)
+                    if fl == "asyncio":
+                        await asyncio.get_running_loop().create_future()
+                    else:
+                        await trio.sleep_forever()
+                elif op == "swallow":
+                    # a payload that shrugs off the first n cancellations (legal, if impolite):
+                    # the runtime has to keep cancelling until the payload gives in
+                    n = 0
+                    self.ev("blocking", pid)
+                    while True:
+                        try:
+                            await sleep(3600.0)
+                        except cancel_type:
+                            n += 1
+                            self.ev("swallowed-cancel", pid, n=n)
+                            S.count_fault("payload-swallows-cancellation")
+                            if n > step[1]:
+                                raise
                 elif op == "spin-forever":
                     self.ev("spinning", pid)
                     k = 0
